@@ -291,7 +291,7 @@ func run(c *rig.Ctx) {
 	// (b) lock-step on generated programs
 	nprog := c.N(300, 6000)
 	c.Part("lockstep", nprog, func(i int64, r *rig.Rng) {
-		p := prog.Generate(r, prog.Options{Interrupts: i%2 == 0, AllOpcodes: true, Hardware: i%4 == 1, Stops: i%2 == 1})
+		p := prog.Generate(r, prog.Options{Interrupts: i%2 == 0, AllOpcodes: true, Hardware: i%4 == 1, Stops: i%2 == 1, MBCWrites: i%3 == 0, CartType: cartFor(i)})
 		if i%6 == 5 {
 			p = prog.IdleLoops(r) // wait-for-interrupt loops instead of HALT
 			c.Count("idle_loop_programs", 1)
@@ -328,6 +328,15 @@ func run(c *rig.Ctx) {
 	// (b) lock-step on the timing ROMs
 	roms := romrun.Select("instr_timing", "mem_timing", "_timing", "cpu_instrs/individual/0", "halt_bug", "intr_timing", "div_timing")
 	romrun.FollowROMs(c, "roms", roms, romrun.FollowOpts{Props: []string{"C02"}, Verdict: true})
+}
+
+// cartFor: every third program runs on a random banked cartridge (and gets cartridge-control
+// stores and clock/RAM accesses), the others on a ROM-only one.
+func cartFor(i int64) int {
+	if i%3 == 0 {
+		return -1
+	}
+	return 0
 }
 
 func main() {
